@@ -238,4 +238,139 @@ theorem convert_md_eq_denote (seps : List (Str × Str)) (t : Tag) (key : Str) (s
     rw [convertSetting_dictEft_md]
     simp [encMd_filetypes, convertDict, convertDictF, hf, hp, denote]
 
+
+/-! ### `meta_preprocessor` reads back what the user guide's layout writes -/
+
+theorem appendVal_new (k v : Str) (pre : List (Str × List Str)) (h : k ∉ pre.map (·.1)) :
+    appendVal k v pre = pre ++ [(k, [v])] := by
+  induction pre with
+  | nil => rfl
+  | cons e r ih =>
+    obtain ⟨k2, v2⟩ := e
+    simp at h
+    have h1 : k2 ≠ k := fun hh => h.1 hh.symm
+    simp [appendVal, h1]
+    exact ih (by simpa using h.2)
+
+theorem appendVal_last (k v : Str) (vs : List Str) (pre : List (Str × List Str)) (h : k ∉ pre.map (·.1)) :
+    appendVal k v (pre ++ [(k, vs)]) = pre ++ [(k, vs ++ [v])] := by
+  induction pre with
+  | nil => simp [appendVal]
+  | cons e r ih =>
+    obtain ⟨k2, v2⟩ := e
+    simp at h
+    have h1 : k2 ≠ k := fun hh => h.1 hh.symm
+    simp [appendVal, h1]
+    exact ih (by simpa using h.2)
+
+theorem strip_space_cons (s : Str) : strip (' ' :: s) = strip s := by
+  simp [strip, lstrip, isSpace]
+
+theorem not_blank_of_goodCont (x : Str) (h : goodCont x = true) : isBlank x = false := by
+  simp [goodCont] at h
+  cases hb : isBlank x with
+  | false => rfl
+  | true =>
+    have := lstrip_blank_nil x hb
+    have h1 := h.1
+    simp [strip, this, rstrip, lstrip] at h1
+    exact absurd h1 h.2
+
+theorem metaLoop_conts (k : Str) (xs : List Str) (rest : List Str) (pre : List (Str × List Str)) (vs : List Str)
+    (hk : k ∉ pre.map (·.1)) (hx : ∀ x ∈ xs, goodCont x = true) :
+    metaLoop (xs.map indent4 ++ rest) (some k) (pre ++ [(k, vs)])
+      = metaLoop rest (some k) (pre ++ [(k, vs ++ xs)]) := by
+  induction xs generalizing vs with
+  | nil => simp
+  | cons x r ih =>
+    have hgx := hx x (by simp)
+    have hb : isBlank (indent4 x) = false := by
+      have := not_blank_of_goodCont x hgx
+      simp [isBlank] at this ⊢
+      obtain ⟨c, hc, hs⟩ := this
+      exact ⟨c, by simp [indent4, hc], hs⟩
+    have he : isEnd (indent4 x) = false := by
+      simp [isEnd, indent4, startsWith]
+    have hm : metaMatch (indent4 x) = none := by
+      simp [metaMatch, indent4, leadingSpaces]
+    have hl : leadingSpaces (indent4 x) ≥ 4 := by
+      simp [indent4, leadingSpaces]
+    have hs : strip (indent4 x) = x := by
+      simp [goodCont] at hgx
+      simp [indent4, strip_space_cons, hgx.1]
+    simp only [List.map_cons, List.cons_append, metaLoop, hb, he, hm, hl, hs, Bool.or_self,
+      Bool.false_eq_true, if_false, if_true, ge_iff_le]
+    rw [appendVal_last _ _ _ _ hk, ih _ (fun y hy => hx y (by simp [hy]))]
+    simp
+
+theorem takeWhile_key (k r : Str) (h : k.all (fun c => isKeyChar c && !isSpace c) = true) :
+    (k ++ ':' :: r).takeWhile isKeyChar = k ∧ (k ++ ':' :: r).dropWhile isKeyChar = ':' :: r := by
+  induction k with
+  | nil => exact ⟨by simp [List.takeWhile, show isKeyChar ':' = false by decide],
+                  by simp [List.dropWhile, show isKeyChar ':' = false by decide]⟩
+  | cons c k' ih =>
+    simp at h
+    obtain ⟨i1, i2⟩ := ih (by simpa using h.2)
+    exact ⟨by simp [List.takeWhile, h.1.1, i1], by simp [List.dropWhile, h.1.1, i2]⟩
+
+theorem leadingSpaces_cons_ne (c : Char) (r : Str) (h : c ≠ ' ') : leadingSpaces (c :: r) = 0 := by
+  unfold leadingSpaces
+  split
+  · rename_i heq
+    simp at heq
+    exact absurd heq.1 h
+  · rfl
+
+theorem metaLoop_keyline (k v : Str) (rest : List Str) (key0 : Option Str) (acc : List (Str × List Str))
+    (hk : goodKey k = true) (hv : goodVal v = true) :
+    metaLoop ((k ++ ':' :: ' ' :: v) :: rest) key0 acc = metaLoop rest (some k) (appendVal k v acc) := by
+  cases k with
+  | nil => simp [goodKey] at hk
+  | cons c k' =>
+    simp only [goodKey, Bool.and_eq_true, bne_iff_ne, ne_eq, beq_iff_eq] at hk
+    obtain ⟨⟨⟨hc1, hc2⟩, hall⟩, hstrip⟩ := hk
+    have hc : isKeyChar c = true ∧ isSpace c = false := by
+      simp at hall; exact ⟨hall.1.1, hall.1.2⟩
+    have hcs : c ≠ ' ' := by
+      intro hh; subst hh; simp [isSpace] at hc
+    have hb : isBlank ((c :: k') ++ ':' :: ' ' :: v) = false := by simp [isBlank, hc.2]
+    have he : isEnd ((c :: k') ++ ':' :: ' ' :: v) = false := by simp [isEnd, startsWith, hc1, hc2]
+    have hls : leadingSpaces ((c :: k') ++ ':' :: ' ' :: v) = 0 := leadingSpaces_cons_ne c _ hcs
+    obtain ⟨t1, t2⟩ := takeWhile_key (c :: k') (' ' :: v) hall
+    have hm : metaMatch ((c :: k') ++ ':' :: ' ' :: v) = some (c :: k', v) := by
+      simp only [goodVal, beq_iff_eq] at hv
+      simp only [metaMatch, hls, List.drop_zero, t1, t2, hstrip, strip_space_cons, hv]
+      simp
+    simp only [metaLoop, hb, he, hm, Bool.or_self, Bool.false_eq_true, if_false]
+
+theorem metaLoop_encBlock (opts : List (Str × List Str)) (body : List Str) (acc : List (Str × List Str))
+    (key0 : Option Str) (hg : ∀ o ∈ opts, goodOpt o = true) (hnd : (opts.map (·.1)).Nodup)
+    (hacc : ∀ o ∈ opts, o.1 ∉ acc.map (·.1)) :
+    metaLoop (encBlock opts ++ [] :: body) key0 acc = (acc ++ opts, body) := by
+  induction opts generalizing acc key0 with
+  | nil => simp [encBlock, metaLoop, isBlank]
+  | cons o r ih =>
+    obtain ⟨k, vs⟩ := o
+    rw [List.map_cons, List.nodup_cons] at hnd
+    have hgo := hg (k, vs) (by simp)
+    simp only [goodOpt, Bool.and_eq_true] at hgo
+    cases vs with
+    | nil => simp at hgo
+    | cons v xs =>
+      simp only [Bool.and_eq_true, List.all_eq_true] at hgo
+      obtain ⟨hk, hv, hx⟩ := hgo
+      have hka : k ∉ acc.map (·.1) := hacc (k, v :: xs) (by simp)
+      simp only [encBlock, encLines, List.cons_append, List.append_assoc]
+      rw [metaLoop_keyline k v _ key0 acc hk hv, appendVal_new _ _ _ hka,
+        metaLoop_conts k xs _ acc [v] hka hx]
+      rw [ih (acc ++ [(k, [v] ++ xs)]) (some k) (fun o ho => hg o (by simp [ho])) hnd.2 ?_]
+      · simp
+      · intro o ho
+        simp only [List.map_append, List.map_cons, List.map_nil, List.mem_append, List.mem_singleton, not_or]
+        refine ⟨hacc o (by simp [ho]), ?_⟩
+        intro hh
+        apply hnd.1
+        rw [← hh]
+        exact List.mem_map.2 ⟨o, ho, rfl⟩
+
 end Ford.Settings
